@@ -19,7 +19,7 @@ CLAIMS = {
  "C07": ("model_checking", TECH, "lock discipline of read guards (all guard shapes) and of UntypedEntry::write against a ghost-state lock model: value/id/flag change only inside the write section; writer blocks under a live guard; hot_reload blocks until answered",
          "parking_lot model: reader/writer exclusion trusted; std-lock build not covered"),
  "C08": ("model_checking", TECH, "monitor discipline of the answer protocol as one-step obligations from symbolic pre-states (who empties/fills the slot must notify; wrong-token callers and a full slot block untouched; tokens unique; reload sends its token then waits), one pass of the real reloader thread, bounded termination of the reverse-dependency visit on look-up cycles",
-         "parking_lot::Condvar without spurious wake-ups (documented) and weak fairness assumed; composition of the one-step obligations into deadlock freedom is a pen-and-paper monitor argument (DESIGN.md)"),
+         "parking_lot::Condvar without spurious wake-ups (documented) and weak fairness assumed; the std-lock build is covered for the answer protocol only (std::sync::Condvar::{wait,notify_all} stubbed, spurious/foreign wake-ups allowed); composition of the one-step obligations into deadlock freedom is a pen-and-paper monitor argument (DESIGN.md §5)"),
  "C09": ("model_checking", TECH, "a Compound::load failing after 0, 1 or 2 source accesses on a cache with a reloader: the error names the id and carries the loader's error, nothing is cached or registered, cached values keep handle and value, the recording cell is restored; hot_reload returns when the reloader is gone",
          "panics are outside (Kani is panic=abort); faults inside load_from_source and during reloads are out of reach"),
  "C10": ("model_checking", TECH, "entry kind (dynamic iff reloadable type and reloader present); write on static entries refused; get on dynamic entries refused; cache-level histories (see evidence)",
